@@ -3,8 +3,8 @@ statements in Props/Source_<group>.lean) each property's model depends on, and t
 DEPS = {'C01': ['classes', 'simplify', 'shapes', 'lookup', 'values', 'insert'],
         'C02': ['data'],
         'C03': ['classes', 'simplify', 'shapes', 'values', 'insert', 'wrapmerge'],
-        'C04': ['classes', 'simplify', 'shapes', 'values', 'wrapsplit'],
-        'C05': ['classes', 'simplify', 'shapes', 'values', 'insert', 'wrapsplit', 'wrapmerge'],
+        'C04': ['classes', 'simplify', 'shapes', 'values', 'subset', 'wrapsplit'],
+        'C05': ['classes', 'simplify', 'shapes', 'values', 'insert', 'subset', 'wrapsplit', 'wrapmerge'],
         'C06': ['classes', 'simplify'],
         'C07': ['classes', 'simplify', 'shapes', 'valid'],
         'C08': ['classes', 'lookup'],
@@ -27,6 +27,7 @@ GROUP_THEOREMS = {
                'global_slice_subset_is_model', 'insert_slice_interleave_is_model', 'insert_sample_interleave_is_model',
                'slice_step_is_model', 'get_changed_class_no_slice_dim_is_model'],
     'insert': ['change_class_is_model', 'reclassify_is_model', 'insert_slice_is_model', 'insert_non_slice_is_model', 'insert_sample_is_model'],
+    'subset': ['copy_slice_is_model', 'copy_sample_is_model'],
     'stackadd': ['chk_congruent_is_model', 'add_dcm_is_model'],
     'data': ['file_idx_is_model', 'file_idx_volume_is_model', 'get_data_trim_is_model'],
 }
